@@ -1,14 +1,15 @@
 from cfg.common import FLOAT_ASSUMPTION, NOTE_COMMON
+from cfg.kernels_pre import regen as regen_kernels, KERNEL_THEOREMS, KERNEL_TRUSTED, KERNEL_ASSUMPTION
 from cfg.train_kernels_pre import (regen as regen_train_kernels, TRAIN_KERNEL_THEOREMS_FOR, TRAIN_KERNEL_TRUSTED,
                                    TRAIN_KERNEL_ASSUMPTION)
 
 PROP = {
     'anchors': [('train/set_speed_train_sim.rs', 'solve_step'), ('train/set_speed_train_sim.rs', 'solve_required_pwr'), ('train/speed_limit_train_sim.rs', 'solve_step'), ('train/speed_limit_train_sim.rs', 'solve_required_pwr'), ('train/speed_limit_train_sim.rs', 'get_scaling_factor'), ('train/speed_limit_train_sim.rs', 'get_energy_fuel'), ('train/speed_limit_train_sim.rs', 'get_net_energy_res'), ('train/speed_limit_train_sim.rs', 'get_kilometers'), ('train/speed_limit_train_sim.rs', 'get_megagram_kilometers'), ('consist/consist_model.rs', 'solve_energy_consumption')],
     'blocks': ['train'],
-    'pre': [regen_train_kernels],
-    'trusted_extra': [TRAIN_KERNEL_TRUSTED],
-    'proof_modules': ['C11', 'TrainKernels'],
-    'namespaces': ['Altrios.Proofs.C11', 'Altrios.Proofs.TrainKernels'],
+    'pre': [regen_train_kernels, regen_kernels],
+    'trusted_extra': [TRAIN_KERNEL_TRUSTED, KERNEL_TRUSTED],
+    'proof_modules': ['C11', 'TrainKernels', 'Kernels'],
+    'namespaces': ['Altrios.Proofs.C11', 'Altrios.Proofs.TrainKernels', 'Altrios.Proofs.Kernels'],
     'required_theorems': [
         'Altrios.Proofs.C11.C11_inner_call',
         'Altrios.Proofs.C11.C11_ss_power',
@@ -22,12 +23,12 @@ PROP = {
         'Altrios.Proofs.C11.C11_ss_closed',
         'Altrios.Proofs.C11.C11_sl_closed',
         'Altrios.Proofs.C11.C11_trip_outputs_run',
-    ] + TRAIN_KERNEL_THEOREMS_FOR['C11'],
+    ] + TRAIN_KERNEL_THEOREMS_FOR['C11'] + KERNEL_THEOREMS,
     'nontrivial_stats': ['train.ss.step_ok', 'train.sl.step_ok'],
     'rule': 'each evaluation is one whole real train-simulation step (ss_step / sl_step: train state + consist + every '
             'locomotive) or one of its parts, replayed through the composed Lean model; non-trivial = every accepted step',
     'assumptions': [FLOAT_ASSUMPTION,
-                    'per-unit share bounds inherit the forced hypothesis of C10 (non-negative published limits)'] + [TRAIN_KERNEL_ASSUMPTION],
+                    'per-unit share bounds inherit the forced hypothesis of C10 (non-negative published limits)'] + [TRAIN_KERNEL_ASSUMPTION, KERNEL_ASSUMPTION],
 }
 
 TEXT = {
